@@ -657,6 +657,8 @@ class Verifier:
                     except Unsupported:
                         pass
                 e2["result"] = result
+                if con.fresh_result and isinstance(result, SV) and isinstance(result.ty, TObj):
+                    it.oblige("ensures:result_is_a_new_object", z3.Not(z3.Select(it.alive_pre, result.term)), "supporting", site=("ens", "fresh_result"))
                 nfr = self.cdb.contract_frame(it, con, self.cdb.fn_env(con.ensures, e2), None, old_heap=old_heap, old_env=old_env)
                 for name, term in self.cdb.eval_clauses_fn(it, con.ensures, nfr):
                     if name.startswith("D_"):
